@@ -264,7 +264,7 @@ Section Receive.
     let '(e', _, d) := process_received app e r maxszx isb1 in
     rx_ok (receiving e') /\ forall x, In x d -> delivered_ok isb1 r x.
   Proof.
-    intros Hmax Hgd Hrx [Htag Hcoh]. unfold process_received. fold (blockopt isb1 r). rewrite Hgd.
+    intros Hmax Hgd Hrx [Htag Hcoh]. unfold process_received, process_received_s. fold (blockopt isb1 r). rewrite Hgd.
     destruct (blockopt isb1 r) as [b|] eqn:Hb.
     2: { destruct (isb1 && match mb2 r with Some b2 => negb (bnum b2 =? 0) | None => false end);
          (split; [exact Hrx|]); [intros x []|intros x [<-|[]]; left; auto]. }
@@ -387,7 +387,7 @@ Proof. unfold observe_key. crush_match; repeat split. Qed.
 Lemma process_received_cfg app e r mx isb1 :
   let e' := fst (fst (process_received app e r mx isb1)) in eszx e' = eszx e /\ emax e' = emax e.
 Proof.
-  unfold process_received.
+  unfold process_received, process_received_s.
   destruct ((mcode r =? GET) || (mcode r =? DELETE)); [repeat split|].
   destruct (if isb1 then mb1 r else mb2 r) as [b|]; [|crush_match; repeat split].
   destruct (if isb1 then false else match get_sent_request e (mtok r) with None => true | Some _ => false end); [repeat split|].
@@ -400,7 +400,7 @@ Qed.
 Lemma handle_received_cfg app e r :
   let e' := fst (fst (handle_received app e r)) in eszx e' = eszx e /\ emax e' = emax e.
 Proof.
-  unfold handle_received.
+  unfold handle_received, handle_received_s; fold_pr.
   destruct ((mcode r =? 0) || ((225 <=? mcode r) && (mcode r <=? 229))); [repeat split|].
   destruct ((mcode r =? GET) || (mcode r =? DELETE)).
   - match goal with |- context [start_sending ?a ?b ?c ?d ?f] =>
@@ -441,7 +441,7 @@ Section HandleInv.
     let '(e', _, d) := handle_received app e r in
     rx_ok bodyf noetag (receiving e') /\ (forall x, In x d -> handed_ok r x).
   Proof.
-    intros Hsz Hrx Hcoh. unfold handle_received.
+    intros Hsz Hrx Hcoh. unfold handle_received, handle_received_s; fold_pr.
     destruct ((mcode r =? 0) || ((225 <=? mcode r) && (mcode r <=? 229))) eqn:Hsig.
     { split; [exact Hrx|]. intros x [<-|[]]. left. split; [reflexivity|right].
       unfold is_plain_code. rewrite <- orb_assoc, Hsig. reflexivity. }
@@ -539,7 +539,7 @@ Section Once.
     (d <> [] -> tget (receiving e') (mtok r) = None) /\
     (tget (receiving e) (mtok r) = None -> bnum b <> 0 -> d = []).
   Proof.
-    intros Hb Hobs Hgd. unfold process_received. rewrite Hgd, Hb. unfold observe_key. rewrite Hobs.
+    intros Hb Hobs Hgd. unfold process_received, process_received_s. rewrite Hgd, Hb. unfold observe_key. rewrite Hobs.
     destruct (if isb1 then false else match get_sent_request e (mtok r) with None => true | Some _ => false end).
     { split; [intros H; contradiction H; reflexivity|reflexivity]. }
     cbn [negb].
@@ -573,7 +573,7 @@ Section Once.
                match o with Out w => (e', w, d, 0) | Fail => (e', Some (entity_incomplete (mtok r)), d, 1) end) in
               (d <> [] -> tget (receiving e') (mtok r) = None) /\
               (tget (receiving e) (mtok r) = None -> bnum b <> 0 -> d = [])).
-    { unfold handle_received. unfold is_plain_code in Hplain.
+    { unfold handle_received, handle_received_s; fold_pr. unfold is_plain_code in Hplain.
       apply orb_false_iff in Hplain. destruct Hplain as [Hplain Hd]. apply orb_false_iff in Hplain. destruct Hplain as [Hplain Hg].
       rewrite Hplain. rewrite Hg, Hd. cbn [orb].
       unfold blockopt in Hb.
@@ -625,7 +625,7 @@ Section Frame.
     let '(e', o, _) := process_received app e r mx isb1 in
     same_at e e' t /\ (forall wm, o = Out (Some wm) -> mbody wm = [] \/ mtok wm = mtok r).
   Proof.
-    intros Hf Hh Hne Hrange. unfold process_received, same_at.
+    intros Hf Hh Hne Hrange. unfold process_received, process_received_s, same_at.
     destruct ((mcode r =? GET) || (mcode r =? DELETE)).
     { split; [split; reflexivity|]. intros wm H. injection H as H. right. exact (Happ _ _ _ H). }
     destruct (if isb1 then mb1 r else mb2 r) as [b|].
@@ -684,7 +684,7 @@ Section Isolated.
                match o with Out w => (e', w, d, 0) | Fail => (e', Some (entity_incomplete (mtok r)), d, 1) end) in
               same_at e e' t).
     { assert (Hhr : same_at e (fst (fst (handle_received app e r))) t).
-      { unfold handle_received.
+      { unfold handle_received, handle_received_s; fold_pr.
         destruct ((mcode r =? 0) || ((225 <=? mcode r) && (mcode r <=? 229))); [split; reflexivity|].
         destruct ((mcode r =? GET) || (mcode r =? DELETE)).
         - assert (Hfit : 0 <= fit (mb2 r) (eszx e) <= 7) by (apply fit_range; [exact Hsz|intros b H; apply Hb; right; exact H]).
